@@ -46,6 +46,8 @@ class InStreamModel:
         self.unacked = False       # packet k was sent at least once without a valid ACK
         self.last_ack_cycle = -10000
         self.accepted = 0
+        self.own_token_since = True    # a good token for our address was seen since the last data packet of this endpoint
+        self.foreign_ack_seen = False  # the host ACKed another device while this endpoint's packet was un-ACKed
 
     def accept(self, byte, last, cycle):
         self._cur.append(byte)
@@ -85,6 +87,7 @@ class OutStreamModel:
         self.sent = 0                # position counter for tagging
         self.last_payload = b""
         self.last_toggle = None
+        self.own_token_since = True
 
     def clear_halt(self):
         self.expected = 0
@@ -99,6 +102,8 @@ class SignalInModel:
         self.unacked = False
         self.latched = None
         self.value = 0
+        self.own_token_since = True
+        self.foreign_ack_seen = False
 
     def encode(self, value):
         nbytes = (self.width + 7) // 8
@@ -158,6 +163,7 @@ class Session:
         self.last_token = None       # (pid, endpoint) of the last good token addressed to the device
         self.host_acks = 0           # number of valid ACK handshakes the host has sent
         self.consumer_hold = {}      # out endpoint -> forced stall flag
+        self.status_ack_of = None    # setup bytes while the host sends the handshake for a status-stage ZLP
         self.feed_hold = {}
         self._build()
 
@@ -281,6 +287,8 @@ class Session:
         if info["kind"] == "token":
             if info["addr"] == self.addr:
                 self.last_token = (info["pid"], info["endp"])
+                for m in self.models.values():
+                    m.own_token_since = True
             else:
                 self.last_token = None          # the device must consider itself un-addressed
 
@@ -345,6 +353,7 @@ class Session:
             yield from h.turnaround()
             yield from h.handshake(U.ACK)
             self.host_acks += 1
+            self.on_host_ack()
             return True
         if mode == "bad_pid":
             yield from h.turnaround()
@@ -354,6 +363,12 @@ class Session:
             yield from h.send_raw(bytes([U.pid_byte(U.ACK), self.rng.randrange(256)]))
         # "none": the host stays silent
         return False
+
+    def on_host_ack(self):
+        """hook: the host has put a valid ACK on the wire (after a data packet of this device)"""
+
+    def on_setup_acked(self, setup8):
+        """hook: the device has ACKed a SETUP transaction carrying setup8"""
 
     def stream_keys(self, kind):
         return [k for k, m in self.models.items() if m.kind == kind]
@@ -393,7 +408,11 @@ class Session:
                 res.violation("in_unexpected_handshake", "IN ep=%d answered %s; ops=%s" % (n, what, self.ops_log[-6:]))
             else:
                 res.event("in_naks")
-                if m.unacked:
+                if m.unacked and m.foreign_ack_seen:
+                    res.violation("in_advanced_by_ack_to_other_device", "IN ep=%d: packet %d un-ACKed, then the host ACKed a transaction of "
+                                  "another device address; retry answered NAK (packet dropped); ops=%s" % (n, m.k, self.ops_log[-8:]))
+                    m.acked(b.cycle)
+                elif m.unacked:
                     res.violation("in_nak_instead_of_retry", "IN ep=%d: packet %d was sent before and not ACKed, retry answered NAK; ops=%s"
                                   % (n, m.k, self.ops_log[-8:]))
                 elif m.available(tc, self.slack):
@@ -409,6 +428,12 @@ class Session:
         retry = m.unacked
         if retry:
             res.bin("in_retry_after_missing_ack")
+        if retry and m.foreign_ack_seen and obs_toggle == m.toggle ^ 1 and \
+                (m.k + 1 >= len(m.packets) or payload == m.packets[m.k + 1][0]) and payload != m.packets[m.k][0]:
+            res.violation("in_advanced_by_ack_to_other_device", "IN ep=%d: packet %d un-ACKed, then the host ACKed a transaction of another "
+                          "device address; the retry carries the NEXT packet/toggle (%s); ops=%s" % (n, m.k, what, self.ops_log[-8:]))
+            m.acked(b.cycle)
+        m.foreign_ack_seen = False
         if not m.pending():
             res.violation("in_data_not_from_stream", "IN ep=%d sent %s but no complete packet is pending (k=%d); ops=%s"
                           % (n, what, m.k, self.ops_log[-8:]))
@@ -429,6 +454,7 @@ class Session:
                 res.bin("in_zlp")
             if len(payload) == m.mps:
                 res.bin("in_full_packet")
+        m.own_token_since = False
         good = yield from self.send_ack(ackmode)
         if good:
             if m.pending():
@@ -445,7 +471,13 @@ class Session:
                            % (key[0], m.k, observed, m.toggle, retry, self.ops_log[-10:]))
 
     def foreign_ack_hazard(self):
-        pass
+        """The host has just ACKed the data of ANOTHER device.  An IN endpoint of ours whose last data packet is
+        still un-ACKed and which has not seen a token for our address since must not take that ACK; remember the
+        situation so that a mis-advance can be given its own (narrow) mechanism name."""
+        for key, m in self.models.items():
+            if m.kind in ("in", "sig") and m.unacked and not m.own_token_since:
+                m.foreign_ack_seen = True
+                self.res.bin("foreign_ack_while_waiting_for_ack")
 
     def _op_sig(self, n, m, ackmode):
         res, b, h = self.res, self.b, self.host
@@ -466,9 +498,15 @@ class Session:
             res.violation("sig_wrong_payload", "signal endpoint %d sent %s, value %x latched %x; ops=%s"
                           % (n, payload.hex(), m.value, m.latched, self.ops_log[-6:]))
         if obs_toggle != m.toggle:
-            self.sig_toggle_violation(n, m, obs_toggle)
+            if m.unacked and m.foreign_ack_seen:
+                res.violation("in_advanced_by_ack_to_other_device", "signal endpoint %d: packet un-ACKed, then the host ACKed a transaction of "
+                              "another device address; toggle advanced (%s); ops=%s" % (n, what, self.ops_log[-8:]))
+            else:
+                self.sig_toggle_violation(n, m, obs_toggle)
             if obs_toggle is not None:
                 m.toggle = obs_toggle
+        m.foreign_ack_seen = False
+        m.own_token_since = False
         good = yield from self.send_ack(ackmode)
         if good:
             m.toggle ^= 1
@@ -509,6 +547,11 @@ class Session:
                 toggle = m.expected if choice == "expected" else m.expected ^ 1
                 if length is None:
                     length = rng.choice([0, 1, m.mps - 1, m.mps, m.mps, rng.randint(0, m.mps)])
+                if self.consumer_hold.get(key):
+                    # never overflow the endpoint's buffer (2*mps-1 bytes): what the endpoint does then is C13's subject
+                    room = (2 * m.mps - 1) - (len(m.stream) - len(m.observed))
+                    length = max(0, min(length, room))
+                    payload = None
                 data = bytes(tag(16 + n, m.sent + i) for i in range(length)) if payload is None else payload[:m.mps]
         before = len(m.observed) if m is not None else 0
         yield from h.token(U.OUT, addr, n)
@@ -620,6 +663,8 @@ class Session:
             res.event("ping_transactions")
             if info["kind"] != "handshake" or info["pid"] not in (U.ACK, U.NAK):
                 res.violation("ping_no_handshake", "PING ep=%d answered %s" % (n, what))
+            elif info["pid"] == U.NAK:
+                res.bin("ping_nak")
         return info
 
     # -------------------------------------------------------------------------------------- control traffic
@@ -632,6 +677,8 @@ class Session:
         r = yield from h.setup_transaction(self.addr, setup8)
         out["setup_acked"] = r.get("kind") == "handshake" and r.get("pid") == U.ACK
         self.log("SETUP", bytes(setup8).hex(), "->", self._describe(r))
+        if out["setup_acked"]:
+            self.on_setup_acked(bytes(setup8))
         if not out["setup_acked"] or stop_after == "setup":
             return out
         yield from h.gap()
@@ -680,7 +727,9 @@ class Session:
             self.log("EP0 STATUS IN", mode, "->", self._describe(info))
             out["status"] = info
             if info["kind"] == "data" and len(info["payload"]) == 0:
+                self.status_ack_of = bytes(setup8)
                 good = yield from self.send_ack(mode)
+                self.status_ack_of = None
                 if good:
                     out["completed"] = True
                     return out
@@ -730,7 +779,5 @@ class Session:
         res.cycles = b.cycle
         if b.hit_max_cycles:
             res.violation("harness_max_cycles", "session did not finish in %d cycles" % b.max_cycles)
-        if self.host.tx_during_rx:
-            res.violation("device_transmits_during_host_packet", "%d cycles of tx_valid while the host was sending" % self.host.tx_during_rx)
         res.desc = {"config": {k: (v if not isinstance(v, dict) else {str(a): c for a, c in v.items()}) for k, v in self.cfg.items()},
                     "ops_first": self.ops_log[:25], "ops_total": len(self.ops_log)}
